@@ -17,6 +17,7 @@ CONSTANTS
   MaxLines = 1
   Comments <- None
   MaxComments = 0
+  PrintOpts <- O_two
   FaultKinds <- F_all
 INVARIANT TypeOK
 INVARIANT RepeatedSpeciesSummed
